@@ -77,6 +77,10 @@ package sidx
 //@   modifies qrh.cursors
 //@   modifies allof(QueryResponseCursor.inHeap)
 //@   modifies allof(QueryResponseCursor.idx)
+//@   at-stmt "result.Keys = append(result.Keys, resp.Keys[idx])" requires key-of-the-top-row: resp == qrh.cursors[0].response && idx == qrh.cursors[0].idx
+//@   at-stmt "result.Data = append(result.Data, data)" requires payload-of-the-same-row: (idx < len(resp.Data) ==> samehdr(data, resp.Data[idx])) && (idx >= len(resp.Data) ==> data == nil)
+//@   at-stmt "result.SIDs = append(result.SIDs, sid)" requires series-of-the-same-row: (idx < len(resp.SIDs) ==> sid == resp.SIDs[idx]) && (idx >= len(resp.SIDs) ==> sid == 0)
+//@   at-stmt "result.PartIDs = append(result.PartIDs, partID)" requires part-of-the-same-row: (idx < len(resp.PartIDs) ==> partID == resp.PartIDs[idx]) && (idx >= len(resp.PartIDs) ==> partID == 0)
 //@   ensures  in-key-order: keysOrdered(result, qrh.asc)
 //@   ensures  limited: limit > 0 ==> len(result.Keys) <= limit
 //@   ensures  aligned: len(result.Data) == len(result.Keys) && len(result.SIDs) == len(result.Keys) && len(result.PartIDs) == len(result.Keys)
